@@ -58,6 +58,11 @@ pub fn build_slice(rng: &mut Rng, slot: u64, sk: &SecretKey, spec: &SliceSpec) -
     BuiltSlice { spec: spec.clone(), shreds, root, payload, size, data }
 }
 
+/// The same slice content signed for ANOTHER slot (same slice root, same flags).
+pub fn resign_slice_for_slot(b: &BuiltSlice, other_slot: u64, sk: &SecretKey) -> BuiltSlice {
+    resign_slice(b, other_slot, sk, b.spec.last)
+}
+
 /// The same slice content signed a second time with another last-slice flag (same slice root).
 pub fn resign_slice(b: &BuiltSlice, slot: u64, sk: &SecretKey, last: bool) -> BuiltSlice {
     let mut spec = b.spec.clone();
@@ -208,7 +213,7 @@ pub fn block_shape(rng: &mut Rng, slot: u64) -> (Vec<SliceSpec>, &'static str) {
     let k = rng.range(1, 5);
     let p0 = (slot - 1 - rng.below(slot.min(2)), rng.range(1, 3));
     let mut specs: Vec<SliceSpec> = (0..k).map(|i| SliceSpec { idx: i, last: i + 1 == k, parent: if i == 0 { Some(p0) } else { None }, txs_ok: true, salt: rng.next() }).collect();
-    let shape = match rng.below(15) {
+    let shape = match rng.below(17) {
         0..=4 => "honest",
         5 => { if k > 1 { let i = rng.range(1, k - 1) as usize; specs[i].parent = Some((p0.0.saturating_sub(1), 7)); } "honest-handover" }
         6 => { specs[0].parent = None; "first-slice-without-parent" }
@@ -223,6 +228,10 @@ pub fn block_shape(rng: &mut Rng, slot: u64) -> (Vec<SliceSpec>, &'static str) {
                 else { specs.push(SliceSpec { idx: k, last: true, parent: None, txs_ok: true, salt: rng.next() }); "second-last-slice" } }
         13 => { // a conflicting version of a slice that shows up only after the block is complete
                 let i = rng.below(k) as usize; let mut c = specs[i].clone(); c.salt = rng.next(); specs.push(c); "late-conflicting-slice" }
+        14 => { // legitimate handover to ANOTHER block of the parent's slot (the previous leader equivocated)
+                if k > 1 { let i = rng.range(1, k - 1) as usize; specs[i].parent = Some((p0.0, if p0.1 == 1 { 2 } else { 1 })); "honest-handover-same-slot" } else { "honest" } }
+        15 => { // a later slice hands over to a parent that is not in an earlier slot
+                if k > 1 { let i = rng.range(1, k - 1) as usize; specs[i].parent = Some((slot + rng.below(2), 3)); "handover-parent-not-in-earlier-slot" } else { specs[0].parent = Some((slot + rng.below(2), 3)); "parent-not-in-earlier-slot" } }
         _ => "honest-tag-flip",
     };
     (specs, shape)
